@@ -308,6 +308,28 @@ def run(ctx):
                "walkdir contract W4: with follow_root_links a starting point that is a symbolic link to a directory is yielded *before* its contents even when contents_first is set; under -depth the depth-0 entry therefore has to be held back until the walk below it is over (%s). `find -H link -depth` otherwise prints `link` first, and `find -H link -delete` unlinks the link before its contents" % desc,
                fn=pf, where=prim.site(pf, frl[0][0]), how="dominating guards of the deferred-slot store (API contract W4)")
 
+    # walkdir contract W7 (same place, IntoIter::get_deferred_dir): the followed root link sits on walkdir's directory stack
+    # but not in its list of deferred directories, and a deferred directory is released when `stack depth < deferred count`.
+    # Below a followed root link under -H (follow_links off, so the root is not converted into a normal directory) the two are
+    # off by one: the *first* directory deferred at depth 1 stays at the bottom of the list until the walk ends, so it is
+    # evaluated after all its later siblings. Every directory still comes after its contents, but with -sorted the siblings
+    # are no longer in name order. The caller would have to compensate for that one directory; nothing does.
+    if both_possible:
+        fl = [(b, t) for b, t in pf.calls() if (t.callee or "").startswith("walkdir::WalkDir::follow_links")]
+        h_mode_possible = True
+        if fl and frl:
+            a = prim.origin_of_operand(pf, frl[0][1].args[1]).strip()
+            l_ = prim.origin_of_operand(pf, fl[0][1].args[1]).strip()
+            # the quirk needs "root links followed, other links not": impossible only when both flags are the same value
+            h_mode_possible = a.fmt() != l_.fmt()
+        compensated = any((t.callee or "").endswith(("WalkEntry::new",)) and any(gd["pred"].strip().k == "field" and gd["pred"].strip().a == "depth_first" and gd["bool"] is True for gd in prim.dominating_guards(pf, b))
+                          and any(cc.get("v") == 1 for gd in prim.dominating_guards(pf, b) for cc in gd["pred"].consts()) for b, t in pf.calls())
+        ctx.ob("R5", "first-directory-below-followed-root-in-order", (not h_mode_possible) or compensated,
+               "walkdir contract W7: with contents_first and a starting point that is a symbolic link followed only because it is the starting point (-H), walkdir releases the first "
+               "directory at depth 1 only when the walk ends — after all its later siblings. `find -H LINK -depth -sorted` therefore does not evaluate siblings in name order; process_dir does not compensate "
+               "(it would have to evaluate that directory itself when the walk leaves it)",
+               fn=pf, where=prim.site(pf, frl[0][0]) if frl else None, how="builder flags (API contract W7) + search for a compensating synthesised depth-1 entry")
+
 
 def _via_depth_guard(pf, skips):
     """true-edge of should_skip may lead to `next` only through the false side of a depth_first test"""
